@@ -1,6 +1,7 @@
 # C16 — database updates converge: correspondence of HashUpd.v with the update branches of rfigc.main
 # (real runs on real temp trees, one run per history step) and the property predicate evaluated on the
 # implementation's own databases.
+import common
 import csv, hashlib, itertools, os, shutil, sys, tempfile, io, contextlib
 from common import hx, hxl
 
@@ -83,7 +84,7 @@ class Impl:
         olderr = sys.stderr
         try:
             with contextlib.redirect_stderr(err), contextlib.redirect_stdout(io.StringIO()):
-                r = rfigc.main(list(args) + ['--silent'])
+                r = rfigc.main(list(args) + ['--silent'] + (['-v'] if common.every_fourth() else []))
             return int(r)
         except SystemExit as e:
             return e.code if isinstance(e.code, int) else ('EXC', repr(e))
